@@ -121,6 +121,8 @@ def clip_worlds(tier: str, seed: int) -> list[dict]:
         enc = {"base": k % 2, "fill": ["intfill", "nan", "none"][k % 3], "supplied": sup,
                "edge_dim": ("implied" if set(sup) & {"en", "ef"} and rng.random() < .5 else "declared") if has_edge else "absent",
                "coords_as": "plain" if k % 4 else "coords"}
+        if enc["fill"] == "intfill" and k % 2:
+            enc["fillvalue"] = 0 if enc["base"] == 1 else -1
         w = W.counts_world("ugrid", nface=len(m["faces"]), nnode=len(m["nodes"]),
                            nedge=len(m["edges"]) if (has_edge and edge_defined) else -1)
         w["mesh"] = m
